@@ -135,20 +135,20 @@ impl SimClock {
         r
     }
 
-    /// Reading through the interposed syscall: local time is folded into the
-    /// returned instant (workers run with TZ=UTC0), no leap representation.
+    /// Reading through the interposed syscall: the genuine simulated UTC
+    /// instant (no leap representation). What local time the reader derives
+    /// from it is decided by the process time zone (see `process_offset`).
     pub fn read_syscall(&mut self) -> (i64, i64) {
         let mut r = self.peek();
         r.via_syscall = true;
         if r.nanos >= 1_000_000_000 {
             r.nanos -= 1_000_000_000;
         }
-        let local = r.secs.saturating_add(r.offset as i64);
-        let out = if local < 0 || local > 250_000_000_000 {
+        let out = if r.secs < 86_400 || r.secs > 250_000_000_000 {
             self.unrepresentable_syscall_read = true;
-            (0, 0)
+            (86_400, 0)
         } else {
-            (local, r.nanos as i64)
+            (r.secs, r.nanos as i64)
         };
         self.readings.push(r);
         self.after_read();
@@ -157,6 +157,17 @@ impl SimClock {
 }
 
 pub type SharedClock = Rc<RefCell<SimClock>>;
+
+static PROCESS_OFFSET: std::sync::atomic::AtomicI32 = std::sync::atomic::AtomicI32::new(0);
+
+/// UTC offset of the process time zone, as measured at start-up.
+pub fn process_offset() -> i32 {
+    PROCESS_OFFSET.load(std::sync::atomic::Ordering::Relaxed)
+}
+
+pub fn set_process_offset(o: i32) {
+    PROCESS_OFFSET.store(o, std::sync::atomic::Ordering::Relaxed);
+}
 
 thread_local! {
     static CUR: RefCell<Option<SharedClock>> = const { RefCell::new(None) };
